@@ -62,7 +62,8 @@ CASES = [
 ]
 import py2lean_np, py2lean_scatter, py2lean_imp, py2lean_holdout, py2lean_arrow, py2lean_cand, py2lean_neg, py2lean_als, py2lean_agg, py2lean_rank
 # other per-run translators: (generated file, obligations module, generator, its Unsupported)
-OTHER = {"C19lin": ("ImpC19.lean", "LK.Proofs.ImpC19", py2lean_imp.translate_linear, py2lean_imp.Unsupported),
+OTHER = {"C01ptr": ("RowPtrsC01.lean", "LK.Proofs.RowPtrsC01", py2lean_arrow.translate_rowptrs, py2lean_arrow.Unsupported),
+         "C19lin": ("ImpC19.lean", "LK.Proofs.ImpC19", py2lean_imp.translate_linear, py2lean_imp.Unsupported),
          "C06rank": ("RankC06.lean", "LK.Proofs.RankC06", py2lean_rank.generate, py2lean_rank.Unsupported),
          "C07agg": ("AggC07.lean", "LK.Proofs.AggC07", py2lean_agg.generate, py2lean_agg.Unsupported),
          "C10als": ("AlsC10.lean", "LK.Proofs.AlsC10", py2lean_als.generate, py2lean_als.Unsupported),
@@ -76,6 +77,8 @@ OTHER = {"C19lin": ("ImpC19.lean", "LK.Proofs.ImpC19", py2lean_imp.translate_lin
          "C08np": ("NpC08.lean", "LK.Proofs.NpC08", py2lean_np.translate_learn, py2lean_np.Unsupported),
          "C04sc": ("ScatterC04.lean", "LK.Proofs.ScatterC04", py2lean_scatter.generate, py2lean_scatter.Unsupported)}
 CASES += [
+ ("C01ptr", "data/relationships.py", "        row_sizes[np.asarray(rsz_nums) + 1] = rsz_counts", "        row_sizes[np.asarray(rsz_nums)] = rsz_counts", "break"),
+ ("C01ptr", "data/relationships.py", "        table = table.sort_by([(c, \"ascending\") for c in e_cols])\n", "", "break"),
  ("C19lin", "stochastic/_ranker.py", "                if r > 0:\n                    scores /= r", "                if r > np.finfo(scores.dtype).eps:\n                    scores /= r", "break"),
  ("C19lin", "stochastic/_ranker.py", "                        weights = scores / tot", "                        weights = scores", "break"),
  ("C19lin", "stochastic/_ranker.py", "                scores -= lb\n", "                scores -= ub\n", "break"),
